@@ -306,10 +306,18 @@ def renderings(rv, info, rec_path):
         for st in blk["stmts"]:
             if st["k"] == "assign" and not st["place"]["p"]:
                 r0 = st["rv"]
+                dl_ = st["place"]["l"]
                 if r0["k"] == "use" and r0["op"]["k"] == "const" and "bool" in r0["op"]:
-                    benv[st["place"]["l"]] = r0["op"]["bool"]
-                elif st["place"]["l"] in benv:
-                    benv.pop(st["place"]["l"])
+                    benv[dl_] = r0["op"]["bool"]
+                elif r0["k"] == "use" and r0["op"]["k"] == "const" and "str" in r0["op"]:
+                    benv[dl_] = ("lit", r0["op"]["str"])      # `let separator = if .. { "." } else { "" }`
+                elif r0["k"] == "use" and r0["op"]["k"] in ("copy", "move") and r0["op"]["place"]["l"] in benv and all(e["k"] == "deref" for e in r0["op"]["place"]["p"]) \
+                        and isinstance(benv[r0["op"]["place"]["l"]], tuple):
+                    benv[dl_] = benv[r0["op"]["place"]["l"]]
+                elif r0["k"] == "ref" and r0["place"]["l"] in benv and all(e["k"] == "deref" for e in r0["place"]["p"]) and isinstance(benv[r0["place"]["l"]], tuple):
+                    benv[dl_] = benv[r0["place"]["l"]]
+                elif dl_ in benv:
+                    benv.pop(dl_)
         tm = blk["term"]
         k = tm["k"]
         if k == "return":
@@ -333,7 +341,14 @@ def renderings(rv, info, rec_path):
                 if ps is None:
                     problems.append("returned string not understood")
                     return
-                pieces = [classify(p) for p in ps]
+                ps2 = []
+                for p in ps:
+                    x_ = strip_refs(p[1]) if p[0] == "val" else None
+                    if x_ is not None and x_[0] == "multi" and isinstance(benv.get(x_[1]), tuple):
+                        ps2.append(benv[x_[1]])       # a string chosen on this path
+                    else:
+                        ps2.append(p)
+                pieces = [classify(p) for p in ps2]
             out.setdefault(var, []).append((tuple(conds), merge(pieces)))
             return
         if k == "switch":
@@ -355,7 +370,7 @@ def renderings(rv, info, rec_path):
                 return
             if i2["kind"] == "bool":
                 d = tm["discr"]
-                if d["k"] in ("copy", "move") and not d["place"]["p"] and d["place"]["l"] in benv:
+                if d["k"] in ("copy", "move") and not d["place"]["p"] and isinstance(benv.get(d["place"]["l"]), bool):
                     walk(rv.edge_target(i2, benv[d["place"]["l"]]), var, conds, pieces, benv, depth + 1, seen)
                     return
                 dt = strip_refs(canon(rv, rv.origin(d)))
